@@ -1750,9 +1750,32 @@ where
             }
             Ok(())
         };
-        let read_pack = |r: &mut dyn io::Read| -> Result<Vec<T>, String> {
+        // how the format hands strings over, and whether recovery reads into existing storage:
+        // drawn per run in search mode, taken from the plan on replay
+        let (transient_strings, in_place) = match &search {
+            Some(s) => {
+                let mut r = s.rng.fork(7);
+                (r.below(3) == 0, r.below(4) == 0 && nested.is_some())
+            }
+            None => (plan.pack.transient_strings, plan.pack.in_place && nested.is_some()),
+        };
+        effective.pack.transient_strings = transient_strings;
+        effective.pack.in_place = in_place;
+        if transient_strings {
+            stats.inc(C::pack_transient_string_runs);
+        }
+        if in_place {
+            stats.inc(C::pack_in_place_runs);
+        }
+        let seed_value: Option<&T> = nested.as_ref().map(|n| &n.0);
+        let read_pack = |r: &mut dyn io::Read, transient: bool, in_place: bool| -> Result<Vec<T>, String> {
             let mut d = crate::pack::Deserializer::new(r);
-            match decode::<T, _>(shape, &mut d) {
+            d.transient_strings = transient;
+            let res = match (in_place, seed_value) {
+                (true, Some(seed)) => decode_in_place::<T, _>(shape, &mut d, seed),
+                _ => decode::<T, _>(shape, &mut d),
+            };
+            match res {
                 Ok(v) => d.end().map(|_| v).map_err(|e| e.to_string()),
                 Err(e) => Err(e.to_string()),
             }
@@ -1771,7 +1794,12 @@ where
                 }
                 // B0: in memory, no faults
                 let b0_before = viols.len();
-                match guarded(|| read_pack(&mut &pj[..]).map(|v| same_values(&v))) {
+                let mut modes = vec![(false, false)];
+                if (transient_strings, in_place) != (false, false) {
+                    modes.push((transient_strings, in_place));
+                }
+                for (tr, ip) in modes {
+                match guarded(|| read_pack(&mut &pj[..], tr, ip).map(|v| same_values(&v))) {
                     Err(p) => viols.push(viol(
                         "B-panic",
                         format!("deserialising an intact binary record ({} bytes, shape {}) panicked: {}", pj.len(), shape.name(), p),
@@ -1780,19 +1808,28 @@ where
                     Ok(Err(e)) => viols.push(viol(
                         "B0-intact-record-fails",
                         format!(
-                            "the crate's own Serialize output under a binary self-describing format ({} bytes, shape {}) is rejected by its Deserialize: {}",
+                            "the crate's own Serialize output under a binary self-describing format ({} bytes, shape {}{}{}) is rejected by its Deserialize: {}",
                             pj.len(),
                             shape.name(),
+                            if tr { ", strings handed over with visit_str" } else { "" },
+                            if ip { ", deserialize_in_place" } else { "" },
                             e
                         ),
                         fp,
                     )),
                     Ok(Ok(Err(d))) => viols.push(viol(
                         "B0-round-trip-differs",
-                        format!("binary format, shape {}: the value read back differs: {}", shape.name(), d),
+                        format!(
+                            "binary format, shape {}{}{}: the value read back differs: {}",
+                            shape.name(),
+                            if tr { ", strings handed over with visit_str" } else { "" },
+                            if ip { ", deserialize_in_place" } else { "" },
+                            d
+                        ),
                         fp,
                     )),
                     Ok(Ok(Ok(()))) => stats.inc(C::pack_in_memory_round_trips_ok),
+                }
                 }
                 let b0_ok = viols.len() == b0_before;
 
@@ -1919,7 +1956,7 @@ where
                 let torn = !pintact && !pdisk.corrupted && pj.starts_with(&pdata);
                 log.bytes(&pdata);
                 let mut reader = SimReader::new(&pdata, plan.pack.read_sched.clone(), rng_pr, cfg.clone(), stats);
-                let res = guarded(|| read_pack(&mut reader));
+                let res = guarded(|| read_pack(&mut reader, transient_strings, in_place));
                 let terminal = reader.terminal_at.is_some();
                 let rfaults = reader.faults_delivered;
                 let made = std::mem::take(&mut reader.src.made);
@@ -2032,6 +2069,7 @@ where
     //    failed; an *acknowledged* call with wrong bytes is W1 / W2 / P1 and stays a violation.
     //  * ROBUSTNESS: a panic while reading bytes that are not the record that was written (torn,
     //    lost or flipped) - what the parser does with arbitrary text is C05 / C06's business.
+    //  * FORMAT: everything phase B observes (the simulator's second, binary format).
     let strict = STRICT_ADVISORY.load(std::sync::atomic::Ordering::Relaxed);
     let mut violations: Vec<Violation> = Vec::new();
     let mut advisory: Vec<Violation> = Vec::new();
@@ -2048,6 +2086,18 @@ where
             Some("PROTOCOL")
         } else if v.class == "R-panic" && !intact {
             Some("ROBUSTNESS")
+        } else if v.class.starts_with("B0-")
+            || v.class.starts_with("B1-")
+            || v.class.starts_with("B2-")
+            || v.class.starts_with("B3-")
+            || v.class.starts_with("B4-")
+            || v.class == "B-panic"
+        {
+            // phase B: C12 speaks of JSON ("serialising to JSON and back") and C13 of the same
+            // round trip; what the crate does under another format - above all a wire shape
+            // chosen by `is_human_readable()`, which serde's buffering containers are known to
+            // misreport - is worth a note, not a verdict
+            Some("FORMAT")
         } else {
             None
         };
@@ -2057,6 +2107,7 @@ where
                 stats.inc(match k {
                     "REENTRANCY" => C::advisory_reentrancy_observations,
                     "PROTOCOL" => C::advisory_protocol_observations,
+                    "FORMAT" => C::advisory_format_observations,
                     _ => C::advisory_robustness_observations,
                 });
                 if stats.advisory_samples.len() < 12 && !stats.advisory_samples.iter().any(|x| x.0 == v.class && x.2 == k) {
